@@ -236,9 +236,17 @@ func c16Items(r *rand.Rand, s *model.Schema, split bool, lateOK bool) []*defItem
 					e1, e2 = &a, &b
 				}
 			}
-			it.exts = append(it.exts, model.TypeSDL(e1, o, true))
+			// an extend block may carry a description of its own (ggql reads it); it describes the block, not the type: the
+			// type's description is the one of its definition whatever the arrangement
+			note := func() string {
+				if r.Intn(3) == 0 {
+					return fmt.Sprintf("\"what extension %d adds\"\n", r.Intn(100))
+				}
+				return ""
+			}
+			it.exts = append(it.exts, note()+model.TypeSDL(e1, o, true))
 			if e2 != nil {
-				it.exts = append(it.exts, model.TypeSDL(e2, o, true))
+				it.exts = append(it.exts, note()+model.TypeSDL(e2, o, true))
 			}
 			m := *base
 			m.Fields = append(append([]*model.FieldDef{}, base.Fields...), ext.Fields...)
